@@ -214,6 +214,16 @@ def eval (env : Env) : Nat → St → Prog → St × Outcome
   | f+1, s, .getCached key k =>
       let s := s.record (recordsAsset (env.types key.ty).hot env.hasReloader) (.asset key)
       eval env f s (k ((s.lookup key).map (·.val)))
+  | f+1, s, .getOrInsert key v k =>
+      -- `_get_cached_entry` (records like `get_cached`), then `add_any` when absent
+      let s := s.record (recordsAsset (env.types key.ty).hot env.hasReloader) (.asset key)
+      match s.lookup key with
+      | some c => eval env f (s.handOut key.ty) (k c.val)   -- the value passed in is dropped
+      | none =>
+        let c : Cell := { val := v, dyn := insertedEntryDynamic (env.types key.ty).hot env.hasReloader,
+                          rid := ReloadId_NEVER, flag := false, addr := s.next }
+        let r := s.insertKeepFirst key c
+        eval env f (St.own { r.1 with next := s.next + 1 } key.ty s.next false) (k v)
   | f+1, s, .noRecord body k =>
       let (s1, o, _) := withFrame true none (fun s => eval env f s body) s
       cont o s1 (fun r s => eval env f s (k r)) id
